@@ -179,6 +179,13 @@ func HarnessPrintFileOptions() {
 			{Name: proto.String("a"), Number: proto.Int32(1), Type: str, Label: opt, Options: fieldOpts},
 			{Name: proto.String("b"), Number: proto.Int32(2), Type: str, Label: opt},
 		}}, {Name: proto.String("Empty"), Options: emptyOpts}}}
+	// source information that puts the (empty) message option of Empty on several lines
+	if withMsgOpts && ndBool("optionWrittenOverSeveralLines") {
+		fdp.SourceCodeInfo = &descriptorpb.SourceCodeInfo{Location: []*descriptorpb.SourceCodeInfo_Location{
+			{Path: []int32{4, 1}, Span: []int32{20, 0, 24, 1}},
+			{Path: []int32{4, 1, 7, 555000}, Span: []int32{21, 2, 22, 4}},
+		}}
+	}
 	var file protoreflect.FileDescriptor
 	if verifNative() {
 		proto.SetExtension(fieldOpts, validate.E_Field, vOpt)
